@@ -285,6 +285,38 @@ def _le_build(view):
     return LE
 
 
+def _stopped(pre, post, fold, member, n):
+    """whether the member loop was left early by a StopFieldError.  Under verification this is the engine's ghost flag; at a call
+    site it is an unknown the caller learns about only through the clause returned here: an early end means that some member k,
+    reached with every earlier member built, refused to build with StopFieldError"""
+    eng = post.eng
+    ghost_mode = getattr(eng.models, 'ghost_mode', False)
+    use_mode = ghost_mode or not post.st.ghost.get('LE')
+    stopped = fresh('stopped', t.BOOL) if use_mode else post.st.ghost.get('stopped', t.FALSE)
+    kk = post.st.ghost.get('loop_k')
+    if use_mode or kk is None:
+        kk = fresh('stopping_member', t.INT)
+    ok, exc = member(kk)
+    clause = t.implies(stopped, t.and_(t.le(t.ZERO, kk), t.lt(kk, n), bs('bs_ok', fold(kk)), t.not_(ok), eng.exc_sub_term(exc, 'StopFieldError')))
+    return stopped, [('an-early-end-is-a-member-refusing-to-build-with-StopFieldError', clause, ('C07', 'C01', 'C03'))]
+
+
+def _struct_member_build(LE, sl, k, o0):
+    """(B_ok, B_exc) of member k in the state the fold reached before it (mirror of the step function)"""
+    s = _bfold(LE, sl, k, _base(o0))
+    m = t.app('sl_at', t.INT, sl, k)
+    c, oa = _addr(LE, 'context'), _addr(LE, 'obj')
+    H, D = bs('bs_H', s), bs('bs_D', s)
+    v = t.app('bval', t.VAL, m, H, D, oa)
+    nm = t.app('sc_name', t.VAL, m)
+    named = t.app('truthy', t.BOOL, nm)
+    key = t.app('sval', t.STR, nm)
+    H1 = t.ite(named, t.T('Heap', 'store', (H, c, t.T('Fields', 'store', (t.T('Fields', 'select', (H, c)), key, v)))), H)
+    D1 = t.ite(named, t.T('Dom', 'store', (D, c, t.T('Keys', 'store', (t.T('Keys', 'select', (D, c)), key, t.TRUE)))), D)
+    a = (m, v, t.add(bs('bs_pos', s), _base(o0)), H1, D1, c)
+    return t.and_(t.app('bhas', t.BOOL, m, D, oa), t.app('B_ok', t.BOOL, *a)), t.app('B_exc', t.INT, *a)
+
+
 def _struct_build_ok(pre, post):
     o0, o2 = pre.obj('stream'), post.obj('stream')
     sl = pre.self.fields['subcons'].ident
@@ -305,8 +337,8 @@ def _struct_build_ok(pre, post):
     supplied = t.forall([key], t.implies(t.T(t.BOOL, 'select', (d_ob, key)),
                                          t.and_(t.T(t.BOOL, 'select', (d_le, key)), t.eq(t.T(t.VAL, 'select', (f_le, key)), t.T(t.VAL, 'select', (f_ob, key))))),
                         pats=[[t.T(t.BOOL, 'select', (d_ob, key))]])
-    stopped = post.st.ghost.get('stopped', t.FALSE)
-    return [('all-supplied-siblings-are-in-the-scope-before-the-first-member-is-built', supplied, ('C07',)),
+    stopped, early = _stopped(pre, post, lambda k: _bfold(LE, sl, k, _base(o0)), lambda k: _struct_member_build(LE, sl, k, o0), n)
+    return early + [('all-supplied-siblings-are-in-the-scope-before-the-first-member-is-built', supplied, ('C07',)),
             ('nested-scope-is-fresh', t.and_(t.ge(c1, a0), t.ne(c1, c0), t.ne(c1, oa)), ('C07', 'C17')),
             ('stream-untouched-before-the-first-member', t.and_(t.eq(le_o.buf, o0.buf), t.eq(le_o.len, o0.len), t.eq(le_o.pos, o0.pos)), ('C03',)),
             ('members-built-in-declaration-order-each-appending-after-the-previous',
